@@ -151,7 +151,7 @@ class _Run:
 
     def make_service(self, case: gen.Case, sd: gen.ServiceDesc, base_cls, overridden: List[bool]):
         run = self
-        names = gen.public_methods_in_order(base_cls)
+        names = gen.methods_for(base_cls, sd)
         ns: Dict[str, Any] = {}
         for md, pyname, ov in zip(sd.methods, names, overridden):
             if not ov:
@@ -360,7 +360,7 @@ class _Run:
                 deadline=None if cfg["call_deadline"] is None else Deadline.from_timeout(cfg["call_deadline"]),
                 metadata=form(mk_md("call") if cfg["call_md"] else ({} if cfg["call_md_empty"] else None)),
             )
-            pyname = gen.public_methods_in_order(stub_cls)[md.index]
+            pyname = gen.methods_for(stub_cls, sd)[md.index]
             method = getattr(stub, pyname)
             if self.net.lost:
                 c.outcome = "not-started"
@@ -781,7 +781,11 @@ class _Run:
                     continue
                 want_multi = ([eff_md + "-1", eff_md + "-2", b"\x01" + eff_md.encode(), b"\x02" + eff_md.encode()]
                               if c.cfg["md_form"] == 1 else None)
-                if m.get("x-multi*") != want_multi:
+                got_multi = m.get("x-multi*")
+                if got_multi is not None:
+                    # HTTP/2 lets a sender fold repeated TEXT headers into one comma-joined value
+                    got_multi = [x for v in got_multi for x in (v.split(",") if isinstance(v, str) else [v])]
+                if got_multi != want_multi:
                     problems.append(f"values of the repeated metadata keys arrived as {m.get('x-multi*')!r}, the caller's "
                                     f"{eff_md}-level pairs carry {want_multi!r}")
                     continue
@@ -889,7 +893,8 @@ class GrpcSim(Simulator):
     expected_probes = ["probe:unimplemented-call", "probe:handler-error-reached-caller",
                        "probe:call-level-timeout-overrides-stub-level", "probe:call-level-metadata-overrides-stub-level",
                        "probe:call-level-deadline-overrides-stub-level", "probe:request-stream-from-AsyncChannel",
-                       "probe:message-larger-than-h2-window", "probe:tcp-resegmented-writes", "probe:ping-pong-bidi-call"]
+                       "probe:message-larger-than-h2-window", "probe:tcp-resegmented-writes", "probe:ping-pong-bidi-call",
+                       "probe:second-instance-of-the-service-class", "probe:metadata-pairs-with-a-repeated-key"]
 
     def __init__(self):
         self.generated = []
@@ -936,11 +941,8 @@ class GrpcSim(Simulator):
                 case = gen.Case(self.scratch, n)
                 for sd in case.services:
                     stub, base = case.stub_and_base(sd)
-                    if len(gen.public_methods_in_order(stub)) != len(sd.methods) or \
-                            len(gen.public_methods_in_order(base)) != len(sd.methods):
-                        raise LookupError(f"service {sd.name}: generated classes have "
-                                          f"{len(gen.public_methods_in_order(stub))}/{len(gen.public_methods_in_order(base))} "
-                                          f"methods, the schema has {len(sd.methods)}")
+                    gen.methods_for(stub, sd)
+                    gen.methods_for(base, sd)
                     for m in sd.methods:
                         if m.input_type not in SKIP_TYPES:
                             case.message_class(m.input_type)
